@@ -328,6 +328,8 @@ func genSpecs(t *rapid.T, n int, failing bool, missingOK bool) []evSpec {
 	specs := make([]evSpec, n)
 	missingOK = missingOK && rapid.IntRange(0, 2).Draw(t, "allowMissing") == 0
 	sizeMode := rapid.IntRange(0, 2).Draw(t, "sizeMode")
+	// in a quarter of the cases some events claim Lamport times that have nothing to do with their parents'
+	arbitraryLamports := rapid.IntRange(0, 3).Draw(t, "arbitraryLamports") == 0
 	// failure placement: every event fails with probability 1/3, or (a third of the failing cases) exactly one
 	// event fails, one with >= 2 parents if there is any (everything around it is processed, so its own
 	// waiting / re-check path is what the case exercises)
@@ -392,6 +394,9 @@ func genSpecs(t *rapid.T, n int, failing bool, missingOK bool) []evSpec {
 			specs[i].Size = rapid.IntRange(1, 9).Draw(t, "size")
 		default:
 			specs[i].Size = rapid.SampledFrom([]int{1, 2, 100, 1000}).Draw(t, "size")
+		}
+		if arbitraryLamports && rapid.IntRange(0, 2).Draw(t, "claimsLamport") == 0 {
+			specs[i].Lamport = uint32(rapid.IntRange(1, 12).Draw(t, "claimedLamport"))
 		}
 		if failing && !singleFail && rapid.IntRange(0, 2).Draw(t, "fails") == 0 {
 			specs[i].Fail = rapid.SampledFrom([]int{failProcess, failProcess, failCheck, failProcessOnce, failCheckOnce}).Draw(t, "failMode")
